@@ -264,5 +264,7 @@ package internal
 //@       ite(recRefID(r) == old(len(i.Refs)) - 1 && old(i.Refs[recRefID(r)].Stats) != nil, old(i.Refs[recRefID(r)].Stats.Mapped), 0) + ite(mapped, 1, 0))
 //@   ensures[C15] @unmapped placed ==> (i.Refs[recRefID(r)].Stats != nil && i.Refs[recRefID(r)].Stats.Unmapped ==
 //@       ite(recRefID(r) == old(len(i.Refs)) - 1 && old(i.Refs[recRefID(r)].Stats) != nil, old(i.Refs[recRefID(r)].Stats.Unmapped), 0) + ite(mapped, 0, 1))
-//@   ensures[C15] @span placed ==> voff(i.Refs[recRefID(r)].Stats.Chunk.End) == voff(c.End)
+//@   ensures[C15] @span placed ==> i.Refs[recRefID(r)].Stats.Chunk.End == c.End
+//@   ensures[C15] @spanbegin placed ==> i.Refs[recRefID(r)].Stats.Chunk.Begin ==
+//@       ite(recRefID(r) == old(len(i.Refs)) - 1 && old(i.Refs[recRefID(r)].Stats) != nil, old(i.Refs[recRefID(r)].Stats.Chunk.Begin), c.Begin)
 //@   ensures[C15] @unplaced !placed ==> (i.Unmapped != nil && *i.Unmapped == ite(old(i.Unmapped) == nil, 0, old(*i.Unmapped)) + 1)
